@@ -428,6 +428,14 @@ def check_case(case):
                         break
         if seqs is not None and "gc" in ref.data.columns:
             _check_gc(ref, seqs, bad)
+        # ---- command-line tier (a quarter of the cases): `cnvkit.py reference` on the same files = do_reference with
+        # the documented mapping of its options (files sorted into targets / antitargets by name, -x, -y, --no-*)
+        if gen.pick(case, "cli", 4) == 0 and not out:
+            from vk import cli
+
+            diff = cli.reference_diff(tf, af, fa, d, case["male_ref"], case["given"], on, on, on)
+            if diff:
+                bad("cli:reference", diff)
     finally:
         shutil.rmtree(d, ignore_errors=True)
     return out
